@@ -222,3 +222,33 @@ def refuse_reasons(fn):
         elif k in ('Switch', 'Try'):
             out.append('%s at %s' % (k, x.get('loc')))
     return out
+
+
+def prune(n):
+    """Copy of a statement tree in which every `if` whose condition the front end folded to a constant
+    (e.g. `if (DIM == 2)` inside an instantiation) is replaced by its live arm."""
+    if n is None:
+        return None
+    k = n.get('k')
+    if k == 'Compound':
+        out = []
+        for s in n['s']:
+            p = prune(s)
+            if p is not None:
+                out.append(p)
+        m = dict(n)
+        m['s'] = out
+        return m
+    if k == 'If':
+        cv = const_value(n['c'])
+        if cv is not None:
+            return prune(n['t'] if cv else n.get('e'))
+        m = dict(n)
+        m['t'] = prune(n.get('t'))
+        m['e'] = prune(n.get('e'))
+        return m
+    if k in ('For', 'While', 'Do', 'RangeFor'):
+        m = dict(n)
+        m['b'] = prune(n.get('b'))
+        return m
+    return n
